@@ -12,7 +12,7 @@ open Cstruct Cstruct.Core.Lemmas
 structure BitRun (cfg : Cfg) (al : Bool) (gst : GState) (vst : VSt) (lst : LState) : Prop where
   blk : gst.block = []
   pb : gst.prevBits = true
-  ex : ∃ ft rem fsz, vst = ⟨lst.offset, none, some (ft, rem), true⟩ ∧ gst.prevBitsTy = some ft ∧
+  ex : ∃ ft rem fsz sp, vst = ⟨sp, none, some (ft, rem), true⟩ ∧ Known sp lst.offset gst.cur ∧ gst.prevBitsTy = some ft ∧
       gst.bitsRem = (rem : Int) ∧ lst.bitsType = some ft ∧ lst.bitsRemaining = (rem : Int) ∧ ft.size = some fsz ∧
       (lst.offset = none ∨ ∃ bfo, lst.bitsFieldOffset = some bfo ∧ lst.offset = some (bfo + fsz) ∧
         (al = true → fsz ∣ bfo))
@@ -23,7 +23,7 @@ structure CInv (cfg : Cfg) (al : Bool) (gst : GState) (vst : VSt) (lst : LState)
   /-- the tracked `current_offset` never runs ahead of the layout (it ignores alignment padding) -/
   cur : ∀ c l, gst.cur = some c → lst.offset = some l → c ≤ l
   roll : gst.rollover = true → lst.offset = none
-  mode : (PlainSt cfg al gst vst lst.offset fsV offsV fs offs ∧ lst.bitsRemaining = 0) ∨
+  mode : ((∃ bs, PlainSt cfg al gst vst bs lst.offset fsV offsV fs offs) ∧ lst.bitsRemaining = 0) ∨
     (BitRun cfg al gst vst lst ∧ fsV = fs ∧ offsV = offs)
 
 /-! ### small facts about the generator's state functions -/
@@ -107,14 +107,14 @@ theorem flush_nil (cfg : Cfg) (al : Bool) (st : GState) (h : st.block = []) : fl
 theorem pre_plain (cfg : Cfg) (al : Bool) (salign : Nat) (gst : GState) (vst : VSt) (lst : LState)
     (fsV : Fields) (offsV : List (Option Nat)) (fs : Fields) (offs : List (Option Nat))
     (hI : CInv cfg al gst vst lst fsV offsV fs offs) (hnb : nonBitHead fs = true) (p : Plan) :
-    ∃ vst1, planOKAux cfg al salign (preOf gst false ++ p) fsV offsV vst = planOKAux cfg al salign p fsV offsV vst1 ∧
-      PlainSt cfg al (afterPre gst false) vst1 lst.offset fsV offsV fs offs := by
-  rcases hI.mode with ⟨hP, _⟩ | ⟨hB, rfl, rfl⟩
-  · refine ⟨vst, ?_, ?_⟩
+    ∃ vst1 bs, planOKAux cfg al salign (preOf gst false ++ p) fsV offsV vst = planOKAux cfg al salign p fsV offsV vst1 ∧
+      PlainSt cfg al (afterPre gst false) vst1 bs lst.offset fsV offsV fs offs := by
+  rcases hI.mode with ⟨⟨bs, hP⟩, _⟩ | ⟨hB, rfl, rfl⟩
+  · refine ⟨vst, bs, ?_, ?_⟩
     · rw [preOf_of_not _ _ hP.np, List.nil_append]
     · rw [afterPre_of_not _ _ hP.np]; exact hP
-  · obtain ⟨ft, rem, fsz, rfl, _⟩ := hB.ex
-    refine ⟨syncSt lst.offset, ?_, ?_⟩
+  · obtain ⟨ft, rem, fsz, sp, rfl, hK, _⟩ := hB.ex
+    refine ⟨syncSt sp, lst.offset, ?_, ?_⟩
     · unfold preOf
       simp only [hB.pb, Bool.false_eq_true, not_false_eq_true, and_self, if_true, List.cons_append, List.nil_append]
       rw [planOKAux, hnb, Bool.true_and]
@@ -124,6 +124,7 @@ theorem pre_plain (cfg : Cfg) (al : Bool) (salign : Nat) (gst : GState) (vst : V
       exact {
         pend := by simp only [hB.blk]; exact Pending.nil _ _
         chain := by simp only [hB.blk]; rfl
+        sync := by simp only [hB.blk, List.isEmpty_nil, if_true]; exact hK
         mem := by simp only [hB.blk]; intro f hf; cases hf
         vfresh := by simp only [hB.blk]; trivial
         vfresh2 := by simp only [hB.blk]; intro f hf; cases hf
@@ -145,12 +146,14 @@ theorem step_nil (cfg : Cfg) (al : Bool) (salign : Nat) (offs : List (Option Nat
   · rename_i fl hfl
     cases hg
     have htail : NoReset (if al = true then [Instr.alignCls] else []) := by cases al <;> simp [NoReset]
-    rcases hI.mode with ⟨hP, _⟩ | ⟨hB, rfl, rfl⟩
-    · rw [flush_ok cfg al salign gst vst lst.offset fsV offsV .nil offs hP fl hfl ⟨_, dropVoids_nil cfg al offs _⟩ _ htail]
+    rcases hI.mode with ⟨⟨bs, hP⟩, _⟩ | ⟨hB, rfl, rfl⟩
+    · obtain ⟨sp', he, _⟩ := flush_ok cfg al salign gst vst bs lst.offset fsV offsV .nil offs hP fl hfl
+        ⟨_, dropVoids_nil cfg al offs _⟩ _ htail
+      rw [he]
       cases al <;> simp [planOKAux, dropVoids_nil, syncSt]
     · rw [flush_nil cfg al gst hB.blk] at hfl
       cases hfl
-      obtain ⟨ft, rem, fsz, rfl, _⟩ := hB.ex
+      obtain ⟨ft, rem, fsz, sp, rfl, _⟩ := hB.ex
       cases al <;> simp [planOKAux, dropVoids_nil]
 
 /-! ### a member that reads itself (structure, structure array, multi-dimensional or dynamic array) -/
@@ -197,11 +200,17 @@ theorem sub_not_void {ty : Ty} {size : Option Nat}
   | sc s a => cases s <;> simp [fieldType, isStructTy, isSubArray] at h <;> rfl
   | _ => rfl
 
-theorem subSpos_afterAlign (al : Bool) (fa : Nat) (o lo z : Option Nat) :
-    subSpos o (afterAlign al fa o (syncSt lo)).spos z = addOpt o z := by
+theorem subSpos_afterAlign (al : Bool) (fa : Nat) (rs : Bool) (o lo z : Option Nat) :
+    subSpos rs o (afterAlign al fa o (syncSt lo)).spos z = if rs = true then none else addOpt o z := by
   cases o with
   | none => cases z <;> simp [subSpos, addOpt]
   | some oo => cases z <;> simp [subSpos, addOpt, afterAlign]
+
+/-- `current_offset` is forgotten after a nested structure -/
+theorem advance_struct (st : GState) (size : Option Nat) (et : Ty) (h : isStructTy et = true) :
+    (advance st false size et).cur = none := by
+  unfold advance
+  simp [h]
 
 theorem step_sub (cfg : Cfg) (al : Bool) (salign : Nat) (name : String) (an : Bool) (ty : Ty) (rest : Fields)
     (o : Option Nat) (offs' : List (Option Nat)) (lst : LState) (gst : GState) (vst : VSt) (fsV : Fields)
@@ -223,16 +232,18 @@ theorem step_sub (cfg : Cfg) (al : Bool) (salign : Nat) (name : String) (an : Bo
       fsV offsV vst = true := by
   have hnv : isVoid ty = false := sub_not_void hsub
   simp only [List.append_assoc, List.cons_append, List.nil_append]
-  obtain ⟨vst1, hpre, P1⟩ := pre_plain cfg al salign gst vst lst fsV offsV _ _ hI rfl
+  obtain ⟨vst1, bs, hpre, P1⟩ := pre_plain cfg al salign gst vst lst fsV offsV _ _ hI rfl
     (fl ++ ((alignToField cfg al ⟨name, ty, o⟩ gst1.cur).1 ++ (.sub name :: p)))
   rw [hpre]
   have hcur1 : gst1.cur = gst.cur := by rw [hg1]; exact afterPre_cur _ _
   have hroll1 : gst1.rollover = gst.rollover := by rw [hg1]; exact afterPre_rollover _ _
   rw [← hg1] at P1
-  rw [flush_ok cfg al salign gst1 vst1 lst.offset fsV offsV _ _ P1 fl hfl
-    ⟨_, dropVoids_nonvoid _ _ _ _ _ _ _ _ _ (by simp [hnv])⟩ _
-    (NoReset.append (alignToField_noReset _ _ _ _) (noReset_cons (by simp) _))]
-  rw [align_step cfg al salign name an ty none rest o offs' gst1.cur (syncSt lst.offset) _ (by simp [hnv]) rfl ?_
+  obtain ⟨sp', hfe, hK⟩ := flush_ok cfg al salign gst1 vst1 bs lst.offset fsV offsV _ _ P1 fl hfl
+    ⟨_, dropVoids_nonvoid _ _ _ _ _ _ _ _ _ (by simp [hnv])⟩
+    ((alignToField cfg al ⟨name, ty, o⟩ gst1.cur).1 ++ (.sub name :: p))
+    (NoReset.append (alignToField_noReset _ _ _ _) (noReset_cons (by simp) _))
+  rw [hfe]
+  rw [align_step cfg al salign name an ty none rest o offs' gst1.cur (syncSt sp') _ (by simp [hnv]) rfl ?_
     (fun hal => ⟨had hal, memberWF_p2 hwf hal⟩)]
   · rw [sub_instr cfg al salign name an ty rest o offs' _ p hnv (by cases o <;> (simp only [afterAlign]; try split) <;> rfl)
         (posOK_afterAlign al _ o _ rfl), subSpos_afterAlign]
@@ -240,7 +251,7 @@ theorem step_sub (cfg : Cfg) (al : Bool) (salign : Nat) (name : String) (an : Bo
     obtain ⟨hadv1, hadv2⟩ := advance_plain
       { gst1 with block := [], cur := (alignToField cfg al ⟨name, ty, o⟩ gst1.cur).2 }
       ((fieldType ty).size cfg) (elementType (fieldType ty))
-    refine ⟨?_, ?_, Or.inl ⟨?_, rfl⟩⟩
+    refine ⟨?_, ?_, Or.inl ⟨⟨addOpt o (ty.size cfg), ?_⟩, rfl⟩⟩
     · intro c l hc hl
       simp only at hl
       rcases hadv1 c hc with ⟨c0, z, h1, h2, rfl⟩ | ⟨h1, _⟩
@@ -266,6 +277,14 @@ theorem step_sub (cfg : Cfg) (al : Bool) (salign : Nat) (name : String) (an : Bo
     · exact {
         pend := by rw [advance_block]; exact Pending.nil _ _
         chain := by rw [advance_block]; rfl
+        sync := by
+          rw [advance_block]
+          simp only [List.isEmpty_nil, if_true]
+          cases hrs : readsStruct ty with
+          | false => exact Or.inl (by simp)
+          | true =>
+            rw [readsStruct_eq] at hrs
+            exact Or.inr ⟨by simp, advance_struct _ _ _ hrs⟩
         mem := by rw [advance_block]; intro f hf; cases hf
         vfresh := by rw [advance_block]; trivial
         vfresh2 := by rw [advance_block]; intro f hf; cases hf
@@ -275,13 +294,14 @@ theorem step_sub (cfg : Cfg) (al : Bool) (salign : Nat) (name : String) (an : Bo
         np := by rw [advance_prevBits]; exact P1.np
         rem0 := by rw [advance_bitsRem]; exact P1.rem0 }
   · intro oo hoo hc
+    have hsp : sp' = lst.offset := hK.of_some hc
     rw [hoo] at ho
     obtain ⟨l, hl, hle, _, _⟩ := alignOpt_some ho.symm
     rw [hcur1] at hc
     have := hI.cur oo l hc hl
     have : l = oo := by omega
     subst this
-    simp only [syncSt, hl]
+    simp only [syncSt, hsp, hl]
 
 /-! ### a member that joins the pending block -/
 
@@ -311,7 +331,7 @@ theorem step_block (cfg : Cfg) (al : Bool) (salign : Nat) (name : String) (an : 
   obtain ⟨hwf, hfresh, _⟩ := compileWF_cons hall
   have hm : Member cfg al ⟨name, ty, o⟩ := member_of_block cfg al name ty o none hwf h1 h2 h3
   simp only [List.append_assoc]
-  obtain ⟨vst1, hpre, P1⟩ := pre_plain cfg al salign gst vst lst fsV offsV _ _ hI rfl (fl ++ p)
+  obtain ⟨vst1, bs, hpre, P1⟩ := pre_plain cfg al salign gst vst lst fsV offsV _ _ hI rfl (fl ++ p)
   rw [hpre]
   have hcur1 : gst1.cur = gst.cur := by rw [hg1]; exact afterPre_cur _ _
   have hroll1 : gst1.rollover = gst.rollover := by rw [hg1]; exact afterPre_rollover _ _
@@ -328,11 +348,14 @@ theorem step_block (cfg : Cfg) (al : Bool) (salign : Nat) (name : String) (an : 
     subst ho'
     have hlo : lst.offset = none := alignOpt_none ho.symm
     have hfs := dropVoids_dyn cfg al _ lst sz sa _ hlay hlo hall
-    rw [flush_ok cfg al salign gst1 vst1 lst.offset fsV offsV _ _ P1 fl hfl (by rw [hlo]; exact hfs) p
-      (genFields_noReset cfg al _ _ _ _ hp hnp)]
+    obtain ⟨sp', hfe, hK⟩ := flush_ok cfg al salign gst1 vst1 bs lst.offset fsV offsV _ _ P1 fl hfl
+      (by rw [hlo]; exact hfs) p (genFields_noReset cfg al _ _ _ _ hp hnp)
+    rw [hfe]
+    have hsp' : sp' = lst.offset := by rw [hlo] at hK ⊢; exact hK.of_none
+    subst hsp'
     refine ih _ _ _ _ ?_ hp
     rw [blockState_flush al gst1 _ hc] at hadv1 hadv2 hnp ⊢
-    refine ⟨?_, ?_, Or.inl ⟨?_, rfl⟩⟩
+    refine ⟨?_, ?_, Or.inl ⟨⟨lst.offset, ?_⟩, rfl⟩⟩
     · intro c l _ hl
       simp [addOpt] at hl
     · intro _
@@ -340,6 +363,7 @@ theorem step_block (cfg : Cfg) (al : Bool) (salign : Nat) (name : String) (an : 
     · exact {
         pend := by rw [advance_block]; exact Pending.cons name an ty none (Pending.nil _ _)
         chain := by rw [advance_block]; exact ⟨ho, rfl⟩
+        sync := Or.inl rfl
         mem := by
           rw [advance_block]
           intro f hf
@@ -356,7 +380,6 @@ theorem step_block (cfg : Cfg) (al : Bool) (salign : Nat) (name : String) (an : 
         boff := by
           rw [advance_block, advance_blockOff]
           intro _ c l hc' hl
-          simp only [syncSt] at hl
           rw [hcur1] at hc'
           exact hI.cur c l hc' hl
         dyn := by rw [advance_block]; intro _ _; exact Nat.le_refl _
@@ -369,7 +392,7 @@ theorem step_block (cfg : Cfg) (al : Bool) (salign : Nat) (name : String) (an : 
     rw [List.nil_append]
     refine ih _ _ _ _ ?_ hp
     rw [blockState_keep al gst1 _ hc] at hadv1 hadv2 hnp ⊢
-    refine ⟨?_, ?_, Or.inl ⟨?_, rfl⟩⟩
+    refine ⟨?_, ?_, Or.inl ⟨⟨bs, ?_⟩, rfl⟩⟩
     · intro c l hc' hl
       simp only at hl
       rcases hadv1 c hc' with ⟨c0, z, h1', h2', rfl⟩ | ⟨h1', _⟩
@@ -395,7 +418,7 @@ theorem step_block (cfg : Cfg) (al : Bool) (salign : Nat) (name : String) (an : 
       rw [hlo] at ho
       subst ho
       rfl
-    · have hsp : gst1.block = [] → vst1.spos = lst.offset := by
+    · have hsp : gst1.block = [] → bs = lst.offset := by
         intro hb
         have := P1.chain
         rw [hb] at this
@@ -404,7 +427,12 @@ theorem step_block (cfg : Cfg) (al : Bool) (salign : Nat) (name : String) (an : 
         pend := by rw [advance_block]; exact P1.pend.snoc
         chain := by
           rw [advance_block]
-          exact Chain.snoc cfg al gst1.block vst1.spos lst.offset ⟨name, ty, o⟩ P1.chain ho
+          exact Chain.snoc cfg al gst1.block bs lst.offset ⟨name, ty, o⟩ P1.chain ho
+        sync := by
+          rw [advance_block, advance_blockOff]
+          have hne : (gst1.block ++ [(⟨name, ty, o⟩ : CField)]).isEmpty = false := by cases gst1.block <;> rfl
+          simp only [hne, Bool.false_eq_true, if_false]
+          exact P1.sync
         mem := by
           rw [advance_block]
           intro f hf
@@ -515,7 +543,7 @@ theorem memberWF_bitsAlign {cfg : Cfg} {al : Bool} {ty : Ty} {n : Nat} (h : memb
 theorem bits_tail (cfg : Cfg) (al : Bool) (salign : Nat) (name : String) (an : Bool) (ty : Ty) (b : Nat) (rest : Fields)
     (offs' : List (Option Nat)) (lst : LState) (gst2 : GState) (stA : VSt) (p : Plan) (ft0 : Scalar) (fsz : Nat)
     (nu : Bool) (rem0 : Nat) (uA : Option (Scalar × Nat)) (dA : Bool) (o : Option Nat) (lst' : LState)
-    (hstA : stA = ⟨lst.offset, none, uA, dA⟩)
+    (sp : Option Nat) (hstA : stA = ⟨sp, none, uA, dA⟩) (hK : Known sp lst.offset gst2.cur)
     (hnuV : unitNew uA ft0 = nu)
     (hrem0 : rem0 = if nu = true then fsz * 8 else unitRem uA)
     (hfit : b + 1 ≤ rem0)
@@ -558,37 +586,6 @@ theorem bits_tail (cfg : Cfg) (al : Bool) (salign : Nat) (name : String) (an : B
     rw [bits_instr cfg al salign name an ty b rest o offs' _ p ft0 fsz nu rem0 (bitsVia_of cfg al ty _ hwf ft0 hbb) hbb hsz
       (posOK_afterAlign al _ o stA hla) (by rw [hunit]; exact hnuV) (by rw [hunit]; exact hrem0) hfit]
     refine ih _ _ _ _ ?_ hp
-    -- the position after the read is the layout's running offset
-    have hspos : bitsSpos (afterAlign al (ty.alignment cfg) o stA).spos nu fsz = lst'.offset := by
-      rw [hstA, hlst', ho]
-      cases nu with
-      | true =>
-        rw [if_pos rfl, if_pos rfl]
-        cases hoff : alignOpt al lst.offset (ty.alignment cfg) with
-        | some oo => rfl
-        | none =>
-          have hlo := alignOpt_none hoff
-          simp only [afterAlign, hlo]
-          split <;> rfl
-      | false =>
-        rw [if_neg (by simp), if_neg (by simp)]
-        simp only [afterAlign]
-        by_cases hc : al = true ∧ ty.alignment cfg ≠ 1
-        · rw [if_pos hc]
-          simp only [bitsSpos, alignOpt, hc.1, if_true]
-          cases lst.offset <;> simp
-        · rw [if_neg hc]
-          simp only [bitsSpos, alignOpt]
-          cases hal : al with
-          | false => cases lst.offset <;> simp
-          | true =>
-            have h1 : ty.alignment cfg = 1 := by
-              cases Nat.decEq (ty.alignment cfg) 1 with
-              | isTrue h => exact h
-              | isFalse h => exact absurd ⟨hal, h⟩ hc
-            simp only [h1, padNat_one, Nat.add_zero, if_true]
-            cases lst.offset <;> simp
-    rw [hspos]
     -- the layout facts of the unit
     have hunit' : lst'.bitsType = some ft0 ∧ lst'.bitsRemaining = ((rem0 - (b + 1) : Nat) : Int) ∧
         (lst'.offset = none ∨ ∃ bfo, lst'.bitsFieldOffset = some bfo ∧ lst'.offset = some (bfo + fsz) ∧
@@ -630,8 +627,72 @@ theorem bits_tail (cfg : Cfg) (al : Bool) (salign : Nat) (name : String) (an : B
     obtain ⟨hg1, hg2⟩ := advance_bits_cur
       { gst2 with block := [], cur := (alignToField cfg al ⟨name, ty, o⟩ gst2.cur).2 } fsz _ (bitBase_et hbb)
     simp only [alignToField_snd] at hg1 hg2 ⊢
+    have hcn : curAfter al o gst2.cur = none →
+        (advance { gst2 with block := [], cur := curAfter al o gst2.cur } true (some fsz)
+          (elementType (fieldType ty))).cur = none := by
+      intro h
+      cases hc : (advance { gst2 with block := [], cur := curAfter al o gst2.cur } true (some fsz)
+          (elementType (fieldType ty))).cur with
+      | none => rfl
+      | some c' =>
+        obtain ⟨c, hcA, _⟩ := hg1 c' hc
+        rw [h] at hcA
+        cases hcA
+    -- the position after the read is the layout's running offset, or it is unknown (after the alignment statement in front
+    -- of a bit-field that continues its unit) and then the generator has forgotten it as well
+    have hK' : Known (bitsSpos (afterAlign al (ty.alignment cfg) o stA).spos nu fsz) lst'.offset
+        (advance { gst2 with block := [], cur := curAfter al o gst2.cur } true (some fsz)
+          (elementType (fieldType ty))).cur := by
+      rw [hstA, hlst']
+      cases hnu : nu with
+      | true =>
+        rw [hnu] at ho
+        rw [if_pos rfl] at ho
+        rw [if_pos rfl]
+        cases hoff : alignOpt al lst.offset (ty.alignment cfg) with
+        | some oo =>
+          rw [hoff] at ho
+          subst ho
+          exact Or.inl rfl
+        | none =>
+          rw [hoff] at ho
+          subst ho
+          have hlo := alignOpt_none hoff
+          rw [hlo] at hK
+          have hsp := hK.of_none
+          left
+          simp only [afterAlign, hsp]
+          split <;> rfl
+      | false =>
+        rw [hnu] at ho
+        rw [if_neg (by simp)] at ho
+        rw [if_neg (by simp)]
+        subst ho
+        simp only [afterAlign]
+        by_cases hc : al = true ∧ ty.alignment cfg ≠ 1
+        · rw [if_pos hc]
+          exact Or.inr ⟨rfl, hcn (by simp [curAfter, hc.1])⟩
+        · rw [if_neg hc]
+          have hlo' : alignOpt al lst.offset (ty.alignment cfg) = lst.offset := by
+            simp only [alignOpt]
+            cases hal : al with
+            | false => cases lst.offset <;> simp
+            | true =>
+              have h1 : ty.alignment cfg = 1 := by
+                cases Nat.decEq (ty.alignment cfg) 1 with
+                | isTrue h => exact h
+                | isFalse h => exact absurd ⟨hal, h⟩ hc
+              simp only [h1, padNat_one, Nat.add_zero, if_true]
+              cases lst.offset <;> simp
+          have hbs : bitsSpos sp false fsz = sp := by cases sp <;> simp [bitsSpos]
+          simp only [hlo', hbs]
+          rcases hK with h | ⟨h1, h2⟩
+          · exact Or.inl h
+          · refine Or.inr ⟨h1, hcn ?_⟩
+            rw [h2]
+            simp [curAfter]
     refine ⟨?_, ?_, Or.inr ⟨⟨by rw [advance_block], by rw [advance_prevBits]; exact hpb2,
-      ft0, rem0 - (b + 1), fsz, rfl, by rw [advance_prevBitsTy]; exact hty2,
+      ft0, rem0 - (b + 1), fsz, _, rfl, hK', by rw [advance_prevBitsTy]; exact hty2,
       by rw [advance_bitsRem]; simp only; rw [hrem2]; omega, hu1, hu2, hsz, hu3⟩, rfl, rfl⟩⟩
     · intro c' l hc' hl
       obtain ⟨c, hcA, hcase⟩ := hg1 c' hc'
@@ -701,6 +762,7 @@ theorem bits_tail (cfg : Cfg) (al : Bool) (salign : Nat) (name : String) (an : B
       have := hcurI oo l hc hl
       have : l = oo := by omega
       subst this
+      rw [hK.of_some hc]
       exact hl
 
 theorem bitsState_new (st : GState) (ft : Ty) (sz n : Nat) (h : st.bitsRem = 0 ∨ st.prevBitsTy ≠ ft.bitBase) :
@@ -764,7 +826,7 @@ theorem step_bits (cfg : Cfg) (al : Bool) (salign : Nat) (name : String) (an : B
   rw [← hg2] at hblk2 hboff2 hcur2
   have hcurI : ∀ c l, gst2.cur = some c → lst.offset = some l → c ≤ l := by
     intro c l hc hl; rw [hcur2] at hc; exact hI.cur c l hc hl
-  rcases hI.mode with ⟨P, hremL⟩ | ⟨B, rfl, rfl⟩
+  rcases hI.mode with ⟨⟨bs, P⟩, hremL⟩ | ⟨B, rfl, rfl⟩
   · -- the first bit-field of a run
     have hnu : nu = true := by
       unfold layoutThird at ht
@@ -775,16 +837,19 @@ theorem step_bits (cfg : Cfg) (al : Bool) (salign : Nat) (name : String) (an : B
     have hnew : gst.bitsRem = 0 ∨ gst.prevBitsTy ≠ (fieldType ty).bitBase := Or.inl P.rem0
     rw [bitsState_new _ _ _ _ hnew, fieldType_bitBase, hbb] at hg2
     rw [flush_congr cfg al gst2 gst hblk2 hboff2] at hfl
-    rw [flush_ok cfg al salign gst vst lst.offset fsV offsV _ _ P fl hfl
-      ⟨_, dropVoids_nonvoid _ _ _ _ _ _ _ _ _ (by simp)⟩ _
-      (NoReset.append (alignToField_noReset _ _ _ _) (noReset_cons (by simp) _))]
-    refine bits_tail cfg al salign name an ty b rest offs' lst gst2 (syncSt lst.offset) p ft0 fsz true (fsz * 8) none false
-      o _ rfl rfl rfl (by omega) hbb hsz hwf had (by rw [if_pos rfl]; exact ho) rfl hcurI (fun h => by cases h)
+    obtain ⟨sp', hfe, hK⟩ := flush_ok cfg al salign gst vst bs lst.offset fsV offsV _ _ P fl hfl
+      ⟨_, dropVoids_nonvoid _ _ _ _ _ _ _ _ _ (by simp)⟩
+      ((alignToField cfg al ⟨name, ty, o⟩ gst2.cur).1 ++ (.bits name (b + 1) (bitsViaOf ty) :: p))
+      (NoReset.append (alignToField_noReset _ _ _ _) (noReset_cons (by simp) _))
+    rw [hfe]
+    refine bits_tail cfg al salign name an ty b rest offs' lst gst2 (syncSt sp') p ft0 fsz true (fsz * 8) none false
+      o _ sp' rfl (by rw [hcur2]; exact hK) rfl rfl (by omega) hbb hsz hwf had (by rw [if_pos rfl]; exact ho) rfl hcurI (fun h => by cases h)
       (fun _ => by rw [hg2]) (by rw [hg2]) (by rw [hg2]) (by rw [hg2]) (fun h => by cases h) ?_ hp
     rw [if_pos rfl]
     exact ihT _ hl'
   · -- inside a run
-    obtain ⟨ft1, rem, fsz1, hv, hty, hremG, hbt, hremL, hsz1, hoffd⟩ := B.ex
+    obtain ⟨ft1, rem, fsz1, sp, hv, hK, hty, hremG, hbt, hremL, hsz1, hoffd⟩ := B.ex
+    have hK2 : Known sp lst.offset gst2.cur := by rw [hcur2]; exact hK
     have hflnil : fl = [] := by
       have := flush_nil cfg al gst2 (by rw [hblk2]; exact B.blk)
       rw [this] at hfl
@@ -814,7 +879,7 @@ theorem step_bits (cfg : Cfg) (al : Bool) (salign : Nat) (name : String) (an : B
         · right; intro hc; exact h (Option.some.inj hc)
       rw [bitsState_new _ _ _ _ hnewC, fieldType_bitBase, hbb] at hg2
       refine bits_tail cfg al salign name an ty b rest offs' lst gst2 vst p ft0 fsz true (fsz * 8) (some (ft1, rem)) true
-        o _ hv ?_ rfl (by omega) hbb hsz hwf had (by rw [if_pos rfl]; exact ho) rfl hcurI (fun h => by cases h)
+        o _ sp hv hK2 ?_ rfl (by omega) hbb hsz hwf had (by rw [if_pos rfl]; exact ho) rfl hcurI (fun h => by cases h)
         (fun _ => by rw [hg2]) (by rw [hg2]) (by rw [hg2]) (by rw [hg2]) (fun h => by cases h) ?_ hp
       · unfold unitNew
         rcases hnew with h | h
@@ -870,7 +935,7 @@ theorem step_bits (cfg : Cfg) (al : Bool) (salign : Nat) (name : String) (an : B
         · exact h rfl
       rw [bitsState_cont _ _ _ _ hcontC] at hg2
       refine bits_tail cfg al salign name an ty b rest offs' lst gst2 vst p ft1 fsz1 false rem (some (ft1, rem)) true
-        o _ hv ?_ ?_ (by omega) hbb hsz hwf had (by rw [if_neg (by simp)]; exact ho) rfl hcurI ?_ (fun h => by cases h)
+        o _ sp hv hK2 ?_ ?_ (by omega) hbb hsz hwf had (by rw [if_neg (by simp)]; exact ho) rfl hcurI ?_ (fun h => by cases h)
         (by rw [hg2]) (by rw [hg2]; exact hty) (by rw [hg2]; simp only; rw [hremG]) (fun _ => ⟨hbt, hremL, hoffd⟩) ?_ hp
       · unfold unitNew
         simp [hrem]
@@ -965,13 +1030,14 @@ theorem genFields_ok (cfg : Cfg) (al : Bool) (salign : Nat) : ∀ (fs : Fields) 
 /-- the initial states satisfy the invariant -/
 theorem inv_init (cfg : Cfg) (al : Bool) (fs : Fields) (offs : List (Option Nat)) :
     CInv cfg al GState.init ⟨some 0, none, none, false⟩ LState.init fs offs fs offs := by
-  refine ⟨?_, (fun h => by cases h), Or.inl ⟨?_, rfl⟩⟩
+  refine ⟨?_, (fun h => by cases h), Or.inl ⟨⟨some 0, ?_⟩, rfl⟩⟩
   · intro c l hc hl
     simp only [GState.init, Option.some.injEq] at hc
     omega
   · exact {
       pend := Pending.nil _ _
       chain := rfl
+      sync := Or.inl rfl
       mem := fun f hf => by cases hf
       vfresh := trivial
       vfresh2 := fun f hf => by cases hf
